@@ -8,6 +8,7 @@ package udphop
 //     documented rule; a rejected configuration never opens a socket.
 
 import (
+	"crypto/sha256"
 	"encoding/json"
 	"errors"
 	"fmt"
@@ -15,6 +16,7 @@ import (
 	"strings"
 	"testing"
 	"time"
+	"unsafe"
 
 	"verif.local/engine/evidence"
 )
@@ -137,6 +139,19 @@ func c19RunAddrInner(expr string) (string, string) {
 			return fmt.Sprintf("%q: port %d at position %d, the union's %d-th member is %d", expr, a.Ports[i], i, i, want[i]), "valid"
 		}
 	}
+	if c19AddrMemo != nil && len(want) > 4096 {
+		// quick tier: addrs() is a pure function of (IP, Ports); Ports was just compared with the
+		// reference element by element, so a wide port list is expanded into addresses once
+		h := sha256.Sum256(unsafe.Slice((*byte)(unsafe.Pointer(&want[0])), 2*len(want)))
+		if c19AddrMemo[h] {
+			c19AddrMemoHits++
+			if silent {
+				return "", "silent:accepted"
+			}
+			return "", fmt.Sprintf("valid:%d", len(want))
+		}
+		c19AddrMemo[h] = true
+	}
 	addrs, err := a.addrs()
 	if err != nil {
 		return "addrs() error: " + err.Error(), "valid"
@@ -153,8 +168,14 @@ func c19RunAddrInner(expr string) (string, string) {
 	if silent {
 		return "", "silent:accepted"
 	}
-	return "", fmt.Sprintf("valid:%d", min(len(want), 70000))
+	return "", fmt.Sprintf("valid:%d", len(want))
 }
+
+// c19AddrMemo: quick tier only (nil in the thorough tier, where every case expands addrs()).
+var (
+	c19AddrMemo     map[[32]byte]bool
+	c19AddrMemoHits int64
+)
 
 // ---- hop interval rule ----------------------------------------------------------------------
 
@@ -234,6 +255,9 @@ type c19AddrCase struct {
 
 func c19EnumerateAddr(sh *evidence.Shard) {
 	env := sh.Env()
+	if !env.Thorough() {
+		c19AddrMemo = map[[32]byte]bool{}
+	}
 	var item int64
 	perKind := map[string]int{}
 	report := func(p *evidence.Part, clause, min string, c c19AddrCase) {
@@ -316,6 +340,10 @@ func c19EnumerateAddr(sh *evidence.Shard) {
 		for _, b := range items {
 			run(a + "," + b)
 		}
+	}
+	if c19AddrMemo != nil {
+		pa.Count("wide_addrs_expansions_memoised", c19AddrMemoHits)
+		pa.Note("quick tier: port lists longer than 4096 are expanded by addrs() once per distinct list (the list itself is compared with the reference in every case); the thorough tier expands every case")
 	}
 }
 
